@@ -31,8 +31,8 @@ def jobs(tier, seed):
     for j in c06.jobs(tier, seed, prop="C07"):
         j = dict(j)
         j["kind"] = "history"
-        if j["n"] <= 2 or tier == "thorough":
-            j["L"] += 1
+        if j["n"] <= 2 and tier == "quick":
+            j["L"] += 1          # structural checks are cheap: one edit deeper than C06's quick tier (thorough: C06's thorough histories)
             j["cost"] *= 6
         j["prop"] = "C07"
         j["name"] = "hist-" + j["name"]
@@ -153,7 +153,7 @@ def evidence(tier, seed, results, canaries):
             "paths": agg["paths"], "queries": agg["queries"], "solver_s": agg["solver_s"], "forks": agg["forks"],
             "canaries": canaries, "stubs": patcher.STUBS,
             "bounds": {"samplers": "burn-in SMC, particle Gibbs, subtree PG (three proposals, run wiring, N=2, threshold 3/4), data-point and prune-regraft moves; n <= 2 quick (n=3 for the two Gibbs moves), n <= 3 thorough; outliers off/on",
-                       "histories": "as C06 with one more edit for start forests on <= 2 points"},
+                       "histories": "quick: as C06 with one more edit for start forests on <= 2 points; thorough: C06's thorough histories"},
         },
         "assumptions": ["the invariant in vsym/wellformed.py is the property's statement against Tree's observable state"],
     }
